@@ -210,9 +210,13 @@ def sweep(ctx, plants_of, pid, classify_fn, nb=None, demand_type_error=False, gr
                 errs[v[1]] += 1
             if bad:
                 viol.append((classify_fn(k, sk, info), k, info, render_plant(good[bi][0], p), bad))
+    dist = dict(dist)
     dist.update({"base_programs": len(good), "plants": nplants,
                  "base_lines_min_avg_max": [min(sizes or [0]), sum(sizes) // max(1, len(sizes)), max(sizes or [0])]})
-    return viol, {"oracle": dict(dist), "kinds": dict(kinds), "positions": dict(pos), "error_kinds": dict(errs)}
+    if not good:
+        # every base program rejected: the generator's programs are not well typed for this compiler
+        viol.append((None, "base", "program", tg.render(bs[0][0]) if bs else "", "well-typed base program rejected: " + base_res[0][:120] if base_res else "no base"))
+    return viol, {"oracle": dist, "kinds": dict(kinds), "positions": dict(pos), "error_kinds": dict(errs)}
 
 
 def report_sweep(ctx, pid, viol, dist):
